@@ -109,6 +109,18 @@ def trace(stmts: List[ast.stmt], test_eval) -> Optional[List[ast.stmt]]:
       if isinstance(st, (ast.Expr, ast.Assign, ast.AnnAssign, ast.AugAssign, ast.Pass)):
         out.append(st)
         continue
+      if isinstance(st, ast.Try):
+        # the non-exceptional run: body, then else, then finally
+        for blk in (st.body, st.orelse, st.finalbody):
+          r = go(blk)
+          if r is None or r is True:
+            return r
+        continue
+      if isinstance(st, ast.With):
+        r = go(st.body)
+        if r is None or r is True:
+          return r
+        continue
       return None
     return False
   r = go(stmts)
